@@ -263,3 +263,504 @@ Proof.
     + apply IH; [exact Hr|]. intros k Hk. apply Hlt. right. exact Hk.
     + apply Forall_app. split; [exact Hall|]. constructor; [|constructor]. apply Hlt. left. reflexivity.
 Qed.
+
+Lemma fitsb_spec n new step :
+  fitsb n new step = true <-> (n = 0%nat \/ new + (Z.of_nat n - 1) * step <= 65529).
+Proof.
+  unfold fitsb. rewrite orb_true_iff, Nat.eqb_eq, Z.leb_le. reflexivity.
+Qed.
+
+Lemma in_keep start (ls : list line) l : In l (keep_part start ls) <-> In l ls /\ fst l < start.
+Proof. unfold keep_part. rewrite filter_In, Z.ltb_lt. reflexivity. Qed.
+
+Lemma renum_assign_spec c s ls tail new start step :
+  abs_ok c s ls tail -> Forall (fun l : line => fst l < 65535) ls -> 1 <= step -> start <= 65536 ->
+  (accepted ls new start step -> renum_assign (lines s) new start step = Ok (o2n_of (rn_part start ls) new step))
+  /\ (forall o, renum_assign (lines s) new start step = Ok o -> accepted ls new start step)
+  /\ (forall e, renum_assign (lines s) new start step = Err e -> e = err_IFC).
+Proof.
+  intros Habs Hlt Hstep Hst. pose proof Habs as [Hs Hn Hb Hcode Hnd Hlines Hfit].
+  unfold renum_assign. rewrite (sorted_keys_ge c s ls tail start Habs Hst).
+  rewrite (assign_loop_spec step (rn_part start ls) Hstep) by (apply Forall_filter; exact Hlt).
+  set (remaining := filter (fun k => k <? start) (keys (lines s))).
+  assert (Hrem : forall k, In k remaining <-> exists l, In l (keep_part start ls) /\ fst l = k).
+  { intros k. unfold remaining. rewrite filter_In, (keys_abs c s ls tail k Habs), Z.ltb_lt. split.
+    - intros [[H|H] Hk]; [|lia]. unfold nums in H. apply in_map_iff in H as [l [E Hl]]. exists l.
+      split; [apply in_keep; split; [exact Hl | lia] | exact E].
+    - intros [l [Hl E]]. apply in_keep in Hl as [Hl1 Hl2]. subst k. split; [|exact Hl2]. left. unfold nums. apply in_map. exact Hl1. }
+  destruct (lmax remaining) as [m|] eqn:Em.
+  - destruct (lmax_spec _ _ Em) as [Hin Hall]. rewrite Forall_forall in Hall.
+    destruct (new <=? m) eqn:Eg.
+    + split; [|split; [discriminate | intros e H; inversion H; reflexivity]].
+      intros [_ [Hg _]]. apply Hrem in Hin as [l [Hl E]]. specialize (Hg l Hl). lia.
+    + assert (Hg : forall l, In l (keep_part start ls) -> fst l < new).
+      { intros l Hl. assert (In (fst l) remaining) by (apply Hrem; eauto). specialize (Hall _ H). lia. }
+      destruct (fitsb (length (rn_part start ls)) new step) eqn:Ef.
+      * split; [intros _; reflexivity|]. split; [|discriminate]. intros o _. apply fitsb_spec in Ef.
+        split; [exact Hstep|]. split; [exact Hg|]. destruct Ef as [Ef|Ef]; [left; destruct (rn_part start ls); [reflexivity | discriminate] | right; exact Ef].
+      * split; [|split; [discriminate | intros e H; inversion H; reflexivity]].
+        intros [_ [_ Hf]]. assert (fitsb (length (rn_part start ls)) new step = true); [|congruence].
+        apply fitsb_spec. destruct Hf as [Hf|Hf]; [left; rewrite Hf; reflexivity | right; exact Hf].
+  - apply lmax_none in Em.
+    assert (Hg : forall l, In l (keep_part start ls) -> fst l < new).
+    { intros l Hl. assert (H : In (fst l) remaining) by (apply Hrem; eauto). rewrite Em in H. contradiction. }
+    destruct (fitsb (length (rn_part start ls)) new step) eqn:Ef.
+    + split; [intros _; reflexivity|]. split; [|discriminate]. intros o _. apply fitsb_spec in Ef.
+      split; [exact Hstep|]. split; [exact Hg|]. destruct Ef as [Ef|Ef]; [left; destruct (rn_part start ls); [reflexivity | discriminate] | right; exact Ef].
+    + split; [|split; [discriminate | intros e H; inversion H; reflexivity]].
+      intros [_ [_ Hf]]. assert (fitsb (length (rn_part start ls)) new step = true); [|congruence].
+      apply fitsb_spec. destruct Hf as [Hf|Hf]; [left; rewrite Hf; reflexivity | right; exact Hf].
+Qed.
+
+(* ------------------------------------------------------------------ pass 2: the line-number fields *)
+Definition renumber (rn : list line) (news : list Z) : list line :=
+  map (fun p : line * Z => (snd p, snd (fst p))) (combine rn news).
+
+Lemma write_at_mid pre old w post q : zlen pre = q -> zlen old = zlen w ->
+  write_at q w (pre ++ old ++ post) = pre ++ w ++ post.
+Proof.
+  intros H1 H2. unfold write_at. rewrite ztake_app_exact by exact H1.
+  rewrite (app_assoc pre old post). rewrite zdrop_app_exact by (rewrite zlen_app; lia). reflexivity.
+Qed.
+
+Lemma write_numbers_lay c0 d rn : forall news A p X,
+  zlen A = p -> length news = length rn -> Forall (fun n => 0 <= n <= 65535) news ->
+  (forall k q, In (k, q) (idx p rn) -> lookup k d = Some q) ->
+  write_numbers (A ++ lay c0 p rn ++ X) d (combine (nums rn) news) = Ok (A ++ lay c0 p (renumber rn news) ++ X).
+Proof.
+  induction rn as [|l r IH]; intros news A p X HA Hlen Hr Hd.
+  - reflexivity.
+  - destruct news as [|n ns]; [discriminate|]. cbn [length] in Hlen.
+    pose proof (Forall_inv Hr) as Hn. pose proof (Forall_inv_tail Hr) as Hns. cbn beta in Hn.
+    cbn [nums map combine write_numbers]. fold (nums r).
+    rewrite (Hd (fst l) p) by (left; reflexivity). rewrite pack_H_ok by exact Hn. cbn [bind].
+    cbn [lay]. unfold renumber. cbn [combine map fst snd lay]. fold (renumber r ns).
+    set (L := le2 (c0 + 1 + p + 5 + zlen (snd l))).
+    replace (A ++ ((0 :: L ++ le2 (fst l) ++ snd l) ++ lay c0 (p + 5 + zlen (snd l)) r) ++ X)
+      with ((A ++ 0 :: L) ++ le2 (fst l) ++ (snd l ++ lay c0 (p + 5 + zlen (snd l)) r ++ X))
+      by (rewrite <- !app_assoc; cbn [app]; rewrite <- !app_assoc; reflexivity).
+    rewrite write_at_mid by (try reflexivity; rewrite zlen_app, zlen_cons; unfold L; rewrite zlen_le2; lia).
+    replace ((A ++ 0 :: L) ++ le2 n ++ snd l ++ lay c0 (p + 5 + zlen (snd l)) r ++ X)
+      with ((A ++ 0 :: L ++ le2 n ++ snd l) ++ lay c0 (p + 5 + zlen (snd l)) r ++ X)
+      by (rewrite <- !app_assoc; cbn [app]; rewrite <- !app_assoc; reflexivity).
+    rewrite (IH ns (A ++ 0 :: L ++ le2 n ++ snd l) (p + 5 + zlen (snd l)) X).
+    + rewrite <- !app_assoc. cbn [app]. rewrite <- !app_assoc. reflexivity.
+    + rewrite zlen_app, zlen_cons, !zlen_app. unfold L. rewrite !zlen_le2. lia.
+    + lia.
+    + exact Hns.
+    + intros k q Hin. apply Hd. right. exact Hin.
+Qed.
+
+Lemma nums_renumber rn news : length news = length rn -> nums (renumber rn news) = news.
+Proof.
+  revert news; induction rn as [|l r IH]; intros [|n ns] H; try discriminate; [reflexivity|].
+  unfold renumber. cbn [combine map nums fst snd]. f_equal. apply IH. cbn in H. lia.
+Qed.
+Lemma size_renumber rn news : length news = length rn -> size (renumber rn news) = size rn.
+Proof.
+  revert news; induction rn as [|l r IH]; intros [|n ns] H; try discriminate; [reflexivity|].
+  unfold renumber. cbn [combine map size fst snd]. fold (renumber r ns). rewrite IH by (cbn in H; lia). reflexivity.
+Qed.
+Lemma idx_renumber rn : forall news p, length news = length rn ->
+  idx p (renumber rn news) = combine news (map snd (idx p rn)).
+Proof.
+  induction rn as [|l r IH]; intros [|n ns] p H; try discriminate; [reflexivity|].
+  unfold renumber. cbn [combine map idx fst snd]. fold (renumber r ns). rewrite IH by (cbn in H; lia). reflexivity.
+Qed.
+Lemma bodies_renumber (P : list Z -> Prop) rn : forall news, length news = length rn ->
+  Forall (fun l : line => P (snd l)) rn -> Forall (fun l : line => P (snd l)) (renumber rn news).
+Proof.
+  induction rn as [|l r IH]; intros [|n ns] H Hf; try discriminate; [constructor|].
+  unfold renumber. cbn [combine map]. fold (renumber r ns). constructor; [exact (Forall_inv Hf)|].
+  apply IH; [cbn in H; lia | exact (Forall_inv_tail Hf)].
+Qed.
+Lemma length_seqz a st n : length (seqz a st n) = n.
+Proof. revert a; induction n as [|n IH]; intros a; cbn [seqz length]; [reflexivity|]. rewrite IH. reflexivity. Qed.
+
+(* ------------------------------------------------------------------ rewritten bodies are still tokeniser-shaped *)
+Lemma le2_bytes x : 0 <= x <= 65535 -> bytes_ok (le2 x).
+Proof.
+  intros H. unfold le2, bytes_ok, byte_ok. constructor; [apply Z.mod_pos_bound; lia|]. constructor; [|constructor].
+  split; [apply Z.div_pos; lia | apply Z.div_lt_upper_bound; lia].
+Qed.
+
+Lemma body_ok_rw_n d o2n n : o2n_ok o2n -> forall b, (length b <= n)%nat -> forall bef pos lit rem skip,
+  body_ok b lit rem skip = true -> bytes_ok b ->
+  body_ok (fst (rw_body d o2n b bef pos lit rem skip)) lit rem skip = true
+  /\ bytes_ok (fst (rw_body d o2n b bef pos lit rem skip)).
+Proof.
+  intros Ho. induction n as [|n IH]; intros b Hn bef pos lit rem skip H Hb.
+  - destruct b; [|cbn in Hn; lia]. cbn [rw_body fst]. split; [exact H | constructor].
+  - destruct b as [|c r]; [cbn [rw_body fst]; split; [exact H | constructor]|].
+    cbn [length] in Hn. inversion Hb as [|? ? Hc Hr]; subst.
+    cbn [body_ok] in H. cbn [rw_body]. destruct (0 <? skip) eqn:E.
+    + cbn [fst body_ok]. rewrite E. destruct (IH r ltac:(lia) (c :: bef) (pos + 1) lit rem (skip - 1) H Hr) as [H1 H2].
+      split; [exact H1 | constructor; assumption].
+    + destruct (c =? 0) eqn:E0; [discriminate|].
+      destruct ((if c =? 34 then negb lit else lit) || (if c =? 34 then rem else if (c =? tk_REM) && negb lit then true else rem)) eqn:Es.
+      * cbn [fst body_ok]. rewrite E, E0, Es.
+        destruct (IH r ltac:(lia) (c :: bef) (pos + 1) _ _ 0 H Hr) as [H1 H2].
+        split; [exact H1 | constructor; assumption].
+      * destruct (c =? tk_T_UINT) eqn:Eu.
+        -- apply Z.eqb_eq in Eu. subst c. change (tk_plus_bytes tk_T_UINT) with 2 in H.
+           apply orb_false_iff in Es as [Hl1 Hl2]. rewrite Hl1, Hl2 in H.
+           destruct r as [|lo [|hi r']]; cbn [body_ok] in H; try discriminate.
+           change (0 <? 2) with true in H. cbv iota in H. change (2 - 1) with 1 in H.
+           change (0 <? 1) with true in H. cbv iota in H. change (1 - 1) with 0 in H.
+           cbn [length] in Hn. inversion Hr as [|? ? Hlo Hr2]; subst. inversion Hr2 as [|? ? Hhi Hr3]; subst.
+           cbv iota beta zeta. cbn [fst].
+           destruct (IH r' ltac:(lia) (rev (le2 (new_jump o2n bef (unpack_H lo hi))) ++ tk_T_UINT :: bef) (pos + 3) false false 0 H Hr3) as [H1 H2].
+           split.
+           ++ cbn [body_ok]. rewrite E, E0, Hl1, Hl2. cbn [orb]. change (tk_plus_bytes tk_T_UINT) with 2.
+              cbn [le2 app body_ok]. change (0 <? 2) with true. cbv iota. change (2 - 1) with 1.
+              change (0 <? 1) with true. cbv iota. change (1 - 1) with 0. exact H1.
+           ++ constructor; [exact Hc|]. apply Forall_app. split; [|exact H2].
+              apply le2_bytes. apply new_jump_range; [exact Ho | apply unpack_range; assumption].
+        -- cbn [fst body_ok]. rewrite E, E0, Es.
+           destruct (IH r ltac:(lia) (c :: bef) (pos + 1) _ _ (tk_plus_bytes c) H Hr) as [H1 H2].
+           split; [exact H1 | constructor; assumption].
+Qed.
+
+Lemma wf_body_rw d o2n b bef pos : o2n_ok o2n -> wf_body b = true ->
+  wf_body (fst (rw_body d o2n b bef pos false false 0)) = true.
+Proof.
+  intros Ho Hw. unfold wf_body in *. apply andb_true_iff in Hw as [Hb Hk]. apply bytesb_ok in Hb.
+  destruct (body_ok_rw_n d o2n (length b) Ho b (le_n _) bef pos false false 0 Hk Hb) as [H1 H2].
+  apply andb_true_iff. split; [apply bytesb_ok; exact H2 | exact H1].
+Qed.
+
+Lemma rw_prog_nums d o2n c0 ls : forall p bef pos, nums (fst (rw_prog d o2n c0 p ls bef pos)) = nums ls.
+Proof. induction ls as [|l r IH]; intros p bef pos; [reflexivity|]. cbn [rw_prog fst nums map]. f_equal. apply IH. Qed.
+Lemma rw_prog_bodies d o2n c0 ls : o2n_ok o2n -> forall p bef pos,
+  Forall (fun l : line => wf_body (snd l) = true) ls ->
+  Forall (fun l : line => wf_body (snd l) = true) (fst (rw_prog d o2n c0 p ls bef pos)).
+Proof.
+  intros Ho. induction ls as [|l r IH]; intros p bef pos Hb; [constructor|].
+  cbn [rw_prog fst]. constructor; [cbn [snd]; apply wf_body_rw; [exact Ho | exact (Forall_inv Hb)]|].
+  apply IH. exact (Forall_inv_tail Hb).
+Qed.
+Lemma rw_prog_idx d o2n c0 ls : forall p bef pos q, Forall (fun l : line => wf_body (snd l) = true) ls ->
+  idx q (fst (rw_prog d o2n c0 p ls bef pos)) = idx q ls.
+Proof.
+  induction ls as [|l r IH]; intros p bef pos q Hb; [reflexivity|].
+  pose proof (Forall_inv Hb) as Hb1. cbn beta in Hb1. unfold wf_body in Hb1. apply andb_true_iff in Hb1 as [_ Hk].
+  cbn [rw_prog fst idx snd]. rewrite zlen_rw_body by exact Hk. f_equal. apply IH. exact (Forall_inv_tail Hb).
+Qed.
+
+(* ------------------------------------------------------------------ the new numbers *)
+Lemma seqz_bounds st : 0 <= st -> forall n a x, In x (seqz a st n) -> a <= x <= a + (Z.of_nat n - 1) * st.
+Proof.
+  intros Hst. induction n as [|n IH]; intros a x H; [contradiction|]. cbn [seqz In] in H.
+  assert (0 <= Z.of_nat n * st) by (apply Z.mul_nonneg_nonneg; lia).
+  replace ((Z.of_nat (S n) - 1) * st) with (Z.of_nat n * st) by (rewrite Nat2Z.inj_succ; ring).
+  destruct H as [<-|H]; [lia|]. apply IH in H.
+  replace ((Z.of_nat n - 1) * st) with (Z.of_nat n * st - st) in H by ring. lia.
+Qed.
+Lemma seqz_sorted st : 1 <= st -> forall n a, StronglySorted Z.lt (seqz a st n).
+Proof.
+  intros Hst. induction n as [|n IH]; intros a; cbn [seqz]; constructor; [apply IH|].
+  apply Forall_forall. intros x Hx. apply (seqz_bounds st ltac:(lia)) in Hx. lia.
+Qed.
+
+Lemma split2 ls start : StronglySorted Z.lt (nums ls) -> ls = keep_part start ls ++ rn_part start ls.
+Proof.
+  intros Hs. unfold keep_part, rn_part. induction ls as [|x r IH]; [reflexivity|].
+  pose proof (sorted_tail_gt x r Hs) as Hgt.
+  assert (Hs' : StronglySorted Z.lt (nums r)) by (cbn [nums map] in Hs; inversion Hs; assumption).
+  specialize (IH Hs'). cbn [filter]. destruct (fst x <? start) eqn:E1.
+  - destruct (start <=? fst x) eqn:E2; [lia|]. cbn [app]. f_equal. exact IH.
+  - destruct (start <=? fst x) eqn:E2; [|lia].
+    rewrite (filter_none (fun l : line => fst l <? start) r).
+    + cbn [app]. f_equal. symmetry. apply filter_all. eapply Forall_impl; [|exact Hgt]. cbn. intros l Hl. lia.
+    + eapply Forall_impl; [|exact Hgt]. cbn. intros l Hl. lia.
+Qed.
+
+Lemma lookup_combine_in k ks vs v : lookup k (combine ks vs) = Some v -> In v vs.
+Proof.
+  revert vs; induction ks as [|k0 r IH]; intros [|v0 vs] H; cbn [combine lookup] in H; try discriminate.
+  destruct (k =? k0); [inversion H; left; reflexivity | right; apply IH; exact H].
+Qed.
+Lemma keys_combine (ks vs : list Z) : length vs = length ks -> keys (combine ks vs) = ks.
+Proof.
+  revert vs; induction ks as [|k r IH]; intros [|v vs] H; try discriminate; [reflexivity|].
+  cbn [combine keys map fst]. f_equal. apply IH. cbn in H. lia.
+Qed.
+
+Lemma NoDup_app_intro {A} (a b : list A) : NoDup a -> NoDup b -> (forall x, In x a -> ~ In x b) -> NoDup (a ++ b).
+Proof.
+  induction a as [|x r IH]; intros Ha Hb Hd; cbn [app]; [exact Hb|].
+  inversion Ha as [|? ? Hx Hr]; subst. constructor.
+  - intros Hin. apply in_app_iff in Hin as [Hin|Hin]; [exact (Hx Hin) | exact (Hd x (or_introl eq_refl) Hin)].
+  - apply IH; [exact Hr | exact Hb |]. intros y Hy. apply Hd. right. exact Hy.
+Qed.
+
+(* ------------------------------------------------------------------ pass 4: the dict *)
+Lemma fold_rebuild d rn : forall news p acc,
+  length news = length rn -> (forall k q, In (k, q) (idx p rn) -> lookup k d = Some q) ->
+  (forall n, In n news -> ~ In n (keys acc)) -> NoDup news ->
+  fold_left (fun acc on => match lookup (fst on) d with Some p => dict_set (snd on) p acc | None => acc end)
+            (combine (nums rn) news) acc
+  = acc ++ combine news (map snd (idx p rn)).
+Proof.
+  induction rn as [|l r IH]; intros [|n ns] p acc Hlen Hd Hfresh Hnd; try discriminate.
+  - cbn. rewrite app_nil_r. reflexivity.
+  - cbn [nums map combine fold_left idx fst snd]. fold (nums r).
+    rewrite (Hd (fst l) p) by (left; reflexivity).
+    rewrite dict_set_new by (apply Hfresh; left; reflexivity).
+    inversion Hnd as [|? ? Hn Hnd']; subst.
+    rewrite (IH ns (p + 5 + zlen (snd l)) (acc ++ [(n, p)])).
+    + rewrite <- app_assoc. reflexivity.
+    + cbn in Hlen. lia.
+    + intros k q Hin. apply Hd. right. exact Hin.
+    + intros n' Hn' Hin. unfold keys in Hin. rewrite map_app in Hin. apply in_app_iff in Hin as [Hin|[Hin|[]]].
+      * exact (Hfresh n' (or_intror Hn') Hin).
+      * cbn in Hin. subst n'. exact (Hn Hn').
+    + exact Hnd'.
+Qed.
+
+Lemma length_idx p ls : length (idx p ls) = length ls.
+Proof. revert p; induction ls as [|l r IH]; intros p; cbn [idx length]; [reflexivity|]. rewrite IH. reflexivity. Qed.
+
+Lemma sorted_app_Z (a b : list Z) :
+  StronglySorted Z.lt a -> StronglySorted Z.lt b -> (forall x y, In x a -> In y b -> x < y) ->
+  StronglySorted Z.lt (a ++ b).
+Proof.
+  induction a as [|x r IH]; intros Ha Hb Hlt; cbn [app]; [exact Hb|].
+  inversion Ha as [|? ? Ha' Hall]; subst. constructor.
+  - apply IH; [exact Ha' | exact Hb |]. intros u v Hu Hv. apply Hlt; [right; exact Hu | exact Hv].
+  - apply Forall_app. split; [exact Hall|]. apply Forall_forall. intros y Hy. apply Hlt; [left; reflexivity | exact Hy].
+Qed.
+
+(* ------------------------------------------------------------------ Program.renum on a WF state *)
+Definition renum_lines (c : cfg) (s : prog) (ls : list line) (new start step : Z) : list line * list event :=
+  let rn := rn_part start ls in
+  let ls2 := keep_part start ls ++ renumber rn (seqz new step (length rn)) in
+  rw_prog (lines s) (o2n_of rn new step) (cs c) 0 ls2 [] 0.
+
+Theorem renum_ok c s ls tail new start step :
+  cfg_ok c -> abs_ok c s ls tail -> tail_ok tail -> Forall (fun l : line => fst l < 65535) ls ->
+  0 <= new -> 0 <= start <= 65535 -> accepted ls new start step ->
+  exists r, renum s (Some new) (Some start) (Some step) = Ok r
+    /\ r_o2n r = o2n_of (rn_part start ls) new step
+    /\ abs_ok c (r_prog r) (fst (renum_lines c s ls new start step)) tail
+    /\ r_reports r = reports_of (lines s) (snd (renum_lines c s ls new start step)).
+Proof.
+  intros [Hc0 [Hc1 Hc2]] Habs Htail Hlt Hnew Hstart Hacc.
+  pose proof Habs as [Hs Hn Hb Hcode Hnd Hlines Hfit].
+  pose proof Hacc as [Hstep [Hg1 Hg2]].
+  set (keep := keep_part start ls). set (rn := rn_part start ls).
+  set (news := seqz new step (length rn)). set (o2n := o2n_of rn new step).
+  assert (Hsplit : ls = keep ++ rn) by (apply split2; exact Hs).
+  assert (Hlen : length news = length rn) by apply length_seqz.
+  assert (Hnews65529 : forall x, In x news -> new <= x <= 65529).
+  { intros x Hx. destruct Hg2 as [Hg2|Hg2]; fold rn in Hg2.
+    - unfold news in Hx. rewrite Hg2 in Hx. contradiction.
+    - apply (seqz_bounds step ltac:(lia)) in Hx. lia. }
+  assert (Hnews : Forall (fun n => 0 <= n <= 65535) news).
+  { apply Forall_forall. intros x Hx. apply Hnews65529 in Hx. lia. }
+  assert (Ho : o2n_ok o2n).
+  { intros k n Hk. unfold o2n, o2n_of in Hk. apply lookup_combine_in in Hk. rewrite Forall_forall in Hnews. apply Hnews. exact Hk. }
+  assert (Hidx : forall k q, In (k, q) (idx (size keep) rn) -> lookup k (lines s) = Some q).
+  { intros k q Hin. apply (lookup_In _ _ _ Hnd). apply Hlines. rewrite Hsplit. unfold index.
+    rewrite idx_app. rewrite !in_app_iff. left. right. replace (0 + size keep) with (size keep) by lia. exact Hin. }
+  (* pass 1 *)
+  destruct (renum_assign_spec c s ls tail new start step Habs Hlt Hstep ltac:(lia)) as [Hass _].
+  unfold renum. rewrite (Hass Hacc). cbn [bind]. fold rn. fold o2n.
+  (* pass 2 *)
+  assert (Hcode2 : code s = lay (cs c) 0 keep ++ lay (cs c) (size keep) rn ++ 0 :: 0 :: 0 :: tail).
+  { rewrite Hcode. unfold image. rewrite Hsplit at 1. rewrite lay_app, <- app_assoc.
+    replace (0 + size keep) with (size keep) by lia. reflexivity. }
+  rewrite Hcode2. unfold o2n, o2n_of. fold news.
+  rewrite (write_numbers_lay (cs c) (lines s) rn news (lay (cs c) 0 keep) (size keep) (0 :: 0 :: 0 :: tail)
+             (zlen_lay _ _ _) Hlen Hnews Hidx).
+  cbn [bind].
+  set (rn' := renumber rn news). set (ls2 := keep ++ rn').
+  assert (Himg2 : lay (cs c) 0 keep ++ lay (cs c) (size keep) rn' ++ 0 :: 0 :: 0 :: tail
+                  = lay (cs c) 0 ls2 ++ 0 :: 0 :: 0 :: tail).
+  { unfold ls2. rewrite lay_app, <- app_assoc. replace (0 + size keep) with (size keep) by lia. reflexivity. }
+  rewrite Himg2.
+  (* pass 3 *)
+  assert (Hb2 : Forall (fun l : line => wf_body (snd l) = true) ls2).
+  { unfold ls2. apply Forall_app. split; [apply Forall_filter; exact Hb|].
+    apply (bodies_renumber (fun b => wf_body b = true)); [exact Hlen | apply Forall_filter; exact Hb]. }
+  fold (combine (nums rn) news). change (combine (nums rn) news) with o2n.
+  rewrite (rscan_prog (lines s) o2n (cs c) tail ls2 Ho Htail 0 [] 0 Hc0 ltac:(lia) Hb2).
+  cbn [bind fst snd].
+  set (rp := rw_prog (lines s) o2n (cs c) 0 ls2 [] 0).
+  assert (Hrl : renum_lines c s ls new start step = rp) by reflexivity.
+  rewrite Hrl.
+  eexists. split; [reflexivity|]. cbn [r_o2n r_prog r_reports].
+  split; [reflexivity|]. split; [|reflexivity].
+  (* the result is WF *)
+  assert (Hnums3 : nums (fst rp) = nums keep ++ news).
+  { unfold rp. rewrite rw_prog_nums. unfold ls2, nums. rewrite map_app. fold (nums keep). fold (nums rn').
+    unfold rn'. rewrite nums_renumber by exact Hlen. reflexivity. }
+  assert (Hkeep_lt : forall x, In x (nums keep) -> 0 <= x < new /\ x < start /\ x <= 65535).
+  { intros x Hx. unfold nums in Hx. apply in_map_iff in Hx as [l [E Hl]]. subst x. pose proof (Hg1 l Hl).
+    apply in_keep in Hl as [Hl1 Hl2]. rewrite Forall_forall in Hn. specialize (Hn l Hl1). lia. }
+  assert (Hsize3 : size (fst rp) = size ls).
+  { unfold rp. rewrite size_rw_prog by exact Hb2. unfold ls2. rewrite size_app. unfold rn'.
+    rewrite size_renumber by exact Hlen. rewrite Hsplit, size_app. reflexivity. }
+  assert (Hidx3 : idx 0 (fst rp) = idx 0 keep ++ combine news (map snd (idx (size keep) rn))).
+  { unfold rp. rewrite rw_prog_idx by exact Hb2. unfold ls2. rewrite idx_app.
+    replace (0 + size keep) with (size keep) by lia. unfold rn'. rewrite idx_renumber by exact Hlen. reflexivity. }
+  (* the dict *)
+  assert (Hkeys_o2n : keys o2n = nums rn) by (apply keys_combine; unfold nums; rewrite map_length; exact Hlen).
+  assert (Hrn_range : forall k, In k (nums rn) -> start <= k <= 65535).
+  { intros k Hk. unfold rn, rn_part in Hk. rewrite (nums_filter (fun k => start <=? k)) in Hk.
+    apply filter_In in Hk as [Hk1 Hk2]. unfold nums in Hk1. apply in_map_iff in Hk1 as [l [E Hl]].
+    rewrite Forall_forall in Hn. specialize (Hn l Hl). lia. }
+  set (kept := filter (fun kv : Z * Z => negb (member (fst kv) (keys o2n))) (lines s)).
+  assert (Hkept : forall k v, In (k, v) kept <-> In (k, v) (idx 0 keep) \/ (k, v) = (65536, size ls)).
+  { intros k v. unfold kept. rewrite filter_In, Hlines, Hkeys_o2n. cbn [fst]. rewrite Hsplit at 1. unfold index.
+    rewrite idx_app, !in_app_iff. replace (0 + size keep) with (size keep) by lia. cbn [In]. split.
+    - intros [[[H|H]|[H|[]]] Hm].
+      + left. exact H.
+      + exfalso. apply negb_true_iff in Hm. assert (member k (nums rn) = true); [|congruence].
+        apply member_In. eapply In_idx_num. exact H.
+      + right. rewrite <- Hsplit in H. symmetry. exact H.
+    - intros [H|H].
+      + split; [left; left; exact H|]. apply negb_true_iff. destruct (member k (nums rn)) eqn:E; [|reflexivity].
+        apply member_In in E. apply Hrn_range in E. apply In_idx_num in H. apply Hkeep_lt in H. lia.
+      + inversion H; subst k v. split; [right; left; rewrite <- Hsplit; reflexivity|]. apply negb_true_iff.
+        destruct (member 65536 (nums rn)) eqn:E; [|reflexivity]. apply member_In in E. apply Hrn_range in E. lia. }
+  assert (Hkept_keys : forall k, In k (keys kept) -> In k (nums keep) \/ k = 65536).
+  { intros k Hk. apply In_keys in Hk as [v Hv]. apply Hkept in Hv as [Hv|Hv]; [left; eapply In_idx_num; exact Hv | inversion Hv; right; reflexivity]. }
+  assert (Hnd_news : NoDup news) by (apply sorted_NoDup, seqz_sorted; exact Hstep).
+  assert (Hfresh : forall n, In n news -> ~ In n (keys kept)).
+  { intros n Hn' Hin. apply Hnews65529 in Hn'. apply Hkept_keys in Hin as [Hin|Hin]; [apply Hkeep_lt in Hin; lia | lia]. }
+  assert (Hdict : rebuild_dict (lines s) o2n = kept ++ combine news (map snd (idx (size keep) rn))).
+  { unfold rebuild_dict. fold kept. unfold o2n, o2n_of. fold news.
+    apply (fold_rebuild (lines s) rn news (size keep) kept Hlen Hidx Hfresh Hnd_news). }
+  rewrite Hdict.
+  constructor; cbn [code lines].
+  - rewrite Hnums3. apply sorted_app_Z.
+    + apply sorted_filter. exact Hs.
+    + apply seqz_sorted. exact Hstep.
+    + intros x y Hx Hy. apply Hkeep_lt in Hx. apply Hnews65529 in Hy. lia.
+  - apply Forall_forall. intros l Hl. assert (Hin : In (fst l) (nums (fst rp))) by (unfold nums; apply in_map; exact Hl).
+    rewrite Hnums3 in Hin. apply in_app_iff in Hin as [Hin|Hin]; [apply Hkeep_lt in Hin; lia | apply Hnews65529 in Hin; lia].
+  - unfold rp. apply rw_prog_bodies; [exact Ho | exact Hb2].
+  - reflexivity.
+  - unfold keys. rewrite map_app. apply NoDup_app_intro.
+    + apply NoDup_keys_filter. exact Hnd.
+    + fold (keys (combine news (map snd (idx (size keep) rn)))). rewrite keys_combine; [exact Hnd_news|].
+      rewrite map_length, length_idx. symmetry. exact Hlen.
+    + intros x Hx Hy. fold (keys kept) in Hx. fold (keys (combine news (map snd (idx (size keep) rn)))) in Hy.
+      rewrite keys_combine in Hy; [exact (Hfresh x Hy Hx)|].
+      rewrite map_length, length_idx. symmetry. exact Hlen.
+  - intros k v. unfold index. rewrite Hidx3, Hsize3. rewrite !in_app_iff. rewrite Hkept. cbn [In]. split.
+    + intros [[H|H]|H]; [left; left; exact H | right; left; symmetry; exact H | left; right; exact H].
+    + intros [[H|H]|[H|[]]]; [left; left; exact H | right; exact H | left; right; symmetry; exact H].
+  - rewrite Hsize3. exact Hfit.
+Qed.
+
+(* ------------------------------------------------------------------ items: what the scan does to each kind *)
+Fixpoint ev_items (d o2n : list (Z * Z)) (its : list item) (before : list Z) (pos : Z) : list event :=
+  match its with
+  | [] => []
+  | it :: r =>
+      let it' := match it with IRef j => IRef (new_jump o2n before j) | _ => it end in
+      (match it with IRef j => [(pos + 3, j, reported d o2n before j)] | _ => [] end)
+      ++ ev_items d o2n r (rev (render1 it') ++ before) (pos + zlen (render1 it))
+  end.
+
+Lemma rw_body_skip d o2n p : forall R bef pos lit rem,
+  rw_body d o2n (p ++ R) bef pos lit rem (zlen p)
+  = (p ++ fst (rw_body d o2n R (rev p ++ bef) (pos + zlen p) lit rem 0),
+     snd (rw_body d o2n R (rev p ++ bef) (pos + zlen p) lit rem 0)).
+Proof.
+  induction p as [|x p IH]; intros R bef pos lit rem.
+  - cbn [app rev]. change (zlen (@nil Z)) with 0. replace (pos + 0) with pos by lia.
+    destruct (rw_body d o2n R bef pos lit rem 0); reflexivity.
+  - cbn [app rw_body]. rewrite zlen_cons. pose proof (zlen_nonneg p).
+    destruct (0 <? 1 + zlen p) eqn:E; [|lia]. replace (1 + zlen p - 1) with (zlen p) by lia.
+    rewrite IH. cbn [fst snd rev]. rewrite <- app_assoc. cbn [app].
+    replace (pos + 1 + zlen p) with (pos + (1 + zlen p)) by lia. reflexivity.
+Qed.
+
+Lemma rw_body_lit d o2n s : no_byte 34 s = true -> forall R bef pos,
+  rw_body d o2n (s ++ R) bef pos true false 0
+  = (s ++ fst (rw_body d o2n R (rev s ++ bef) (pos + zlen s) true false 0),
+     snd (rw_body d o2n R (rev s ++ bef) (pos + zlen s) true false 0)).
+Proof.
+  induction s as [|x s IH]; intros H R bef pos.
+  - cbn [app rev]. change (zlen (@nil Z)) with 0. replace (pos + 0) with pos by lia.
+    destruct (rw_body d o2n R bef pos true false 0); reflexivity.
+  - cbn [no_byte forallb] in H. apply andb_true_iff in H as [Hx Hs]. apply negb_true_iff in Hx.
+    cbn [app rw_body]. change (0 <? 0) with false. cbv iota. rewrite Hx. cbn [negb andb orb].
+    rewrite andb_false_r. cbn [orb]. rewrite (IH Hs). cbn [fst snd rev]. rewrite <- app_assoc. cbn [app].
+    rewrite zlen_cons. replace (pos + 1 + zlen s) with (pos + (1 + zlen s)) by lia. reflexivity.
+Qed.
+
+Lemma rw_body_rem d o2n s : forall bef pos lit, rw_body d o2n s bef pos lit true 0 = (s, []).
+Proof.
+  induction s as [|x s IH]; intros bef pos lit; [reflexivity|].
+  cbn [rw_body]. change (0 <? 0) with false. cbv iota.
+  assert (H : ((if x =? 34 then negb lit else lit) || (if x =? 34 then true else if (x =? tk_REM) && negb lit then true else true)) = true).
+  { destruct (x =? 34); [apply orb_true_r|]. destruct ((x =? tk_REM) && negb lit); apply orb_true_r. }
+  rewrite H. destruct (x =? 34).
+  - rewrite IH. reflexivity.
+  - destruct ((x =? tk_REM) && negb lit); rewrite IH; reflexivity.
+Qed.
+
+Lemma plain_facts c : plain c = true -> (c =? 0) = false /\ (c =? 34) = false /\ (c =? tk_REM) = false /\ (c =? tk_T_UINT) = false.
+Proof.
+  unfold plain. intros H. apply negb_true_iff in H. apply orb_false_iff in H as [H H4].
+  apply orb_false_iff in H as [H H3]. apply orb_false_iff in H as [H1 H2]. auto.
+Qed.
+
+Theorem rw_body_items d o2n its : items_ok its = true -> forall bef pos,
+  rw_body d o2n (render its) bef pos false false 0
+  = (render (rw_items o2n its bef), ev_items d o2n its bef pos).
+Proof.
+  induction its as [|it r IH]; intros Hok bef pos; [reflexivity|].
+  cbn [items_ok] in Hok. apply andb_true_iff in Hok as [Hit Hr].
+  unfold render. cbn [flat_map rw_items ev_items]. fold (render r).
+  destruct it as [s closed|s|c p|j|c].
+  - (* string literal *)
+    apply andb_true_iff in Hit as [Hit Hlast]. apply andb_true_iff in Hit as [Hit H34]. 
+    cbn [render1 app rw_body]. change (0 <? 0) with false. cbv iota. change (34 =? 34) with true. cbv iota.
+    cbn [negb orb].
+    destruct closed.
+    + rewrite <- app_assoc. rewrite (rw_body_lit d o2n s H34). cbn [app rw_body].
+      change (0 <? 0) with false. cbv iota. change (34 =? 34) with true. cbv iota. cbn [negb orb].
+      change (34 =? tk_T_UINT) with false. cbv iota. change (tk_plus_bytes 34) with 0.
+      fold (render (rw_items o2n r (rev (34 :: s ++ [34]) ++ bef))).
+      replace (rev (34 :: s ++ [34]) ++ bef) with (34 :: rev s ++ 34 :: bef)
+        by (cbn [rev]; rewrite rev_app_distr; cbn [rev app]; rewrite <- !app_assoc; reflexivity).
+      rewrite (IH Hr). cbn [fst snd app]. rewrite <- !app_assoc. cbn [app].
+      rewrite !zlen_cons, zlen_app, zlen_cons. change (zlen (@nil Z)) with 0.
+      replace (pos + 1 + zlen s + 1) with (pos + (1 + (zlen s + (1 + 0)))) by lia. reflexivity.
+    + destruct r as [|it2 r2]; [|cbn in Hlast; discriminate].
+      cbn [render flat_map rw_items ev_items app]. rewrite !app_nil_r.
+      pose proof (rw_body_lit d o2n s H34 [] (34 :: bef) (pos + 1)) as Hl. rewrite app_nil_r in Hl. rewrite Hl.
+      cbn [rw_body fst snd]. rewrite app_nil_r. reflexivity.
+  - (* comment *)
+    apply andb_true_iff in Hit as [Hit Hlast]. destruct r as [|it2 r2]; [|discriminate].
+    cbn [render1 render flat_map rw_items ev_items app rw_body]. rewrite !app_nil_r.
+    change (0 <? 0) with false. cbv iota. change (tk_REM =? 34) with false. cbv iota.
+    change (tk_REM =? tk_REM) with true. cbn [andb negb orb]. rewrite rw_body_rem. reflexivity.
+  - (* token with payload *)
+    apply andb_true_iff in Hit as [Hit Hpb]. apply andb_true_iff in Hit as [Hit Hlen]. apply andb_true_iff in Hit as [Hit Hpos].
+    apply andb_true_iff in Hit as [Hcb Hpl]. destruct (plain_facts c Hpl) as [E0 [E34 [Er Eu]]].
+    apply Z.eqb_eq in Hlen.
+    cbn [render1 app rw_body]. change (0 <? 0) with false. cbv iota. rewrite E34, Er, Eu. cbn [andb orb]. cbv iota.
+    rewrite <- Hlen. rewrite rw_body_skip. cbn [rev]. rewrite <- app_assoc. cbn [app].
+    rewrite (IH Hr). cbn [fst snd app]. rewrite zlen_cons.
+    replace (pos + 1 + zlen p) with (pos + (1 + zlen p)) by lia. reflexivity.
+  - (* reference *)
+    apply andb_true_iff in Hit as [Hj0 Hj1].
+    cbn [render1 le2 app rw_body]. change (0 <? 0) with false. cbv iota.
+    change (tk_T_UINT =? 34) with false. change (tk_T_UINT =? tk_REM) with false. cbn [andb orb]. cbv iota.
+    change (tk_T_UINT =? tk_T_UINT) with true. cbv iota beta zeta. rewrite unpack_le2.
+    rewrite (IH Hr). cbn [fst snd app rev le2]. try rewrite <- !app_assoc. cbn [app].
+    rewrite !zlen_cons. change (zlen (@nil Z)) with 0.
+    replace (pos + (1 + (1 + (1 + 0)))) with (pos + 3) by lia. reflexivity.
+  - (* plain byte *)
+    apply andb_true_iff in Hit as [Hit Hp0]. apply andb_true_iff in Hit as [Hcb Hpl].
+    destruct (plain_facts c Hpl) as [E0 [E34 [Er Eu]]]. apply Z.eqb_eq in Hp0.
+    cbn [render1 app rw_body]. change (0 <? 0) with false. cbv iota. rewrite E34, Er, Eu. cbn [andb orb]. cbv iota.
+    rewrite Hp0. rewrite (IH Hr). cbn [fst snd app rev]. rewrite zlen_cons. change (zlen (@nil Z)) with 0.
+    replace (pos + (1 + 0)) with (pos + 1) by lia. reflexivity.
+Qed.
